@@ -1,6 +1,7 @@
 import NucsProofs.Engine.C08Local
 import NucsProofs.Engine.StackBound
 import NucsProofs.Propagators.PortAlldiff
+import NucsProofs.Propagators.PortGcc
 /-!
   C16 — no in-contract input makes the engine read or write outside its arrays.
 
@@ -23,9 +24,13 @@ import NucsProofs.Propagators.PortAlldiff
     `d[root] ∈ [1, capacity]`, the untouched sentinels, strictly increasing `bounds`, ranks in 1..nb.
     (`alldifferent_empty_domain_fuel`: with an EMPTY domain the code can loop forever — the engine
     never passes one: `Inv`.)
-  PARTIAL: for the ported gcc "never `oob` in contract" is the second conjunct of `C16_port_full`,
-  stated and validated by the correspondence (raw port outcome compared with IndexError /
-  negative-index detection on the implementation on every call), not proved.
+  * `C16_port_gcc` (NucsProofs/Propagators/PortGcc*.lean, 17 files, 5.8 kLoC): the same for the RAW
+    ported gcc (partial sums, update_bounds, the four filtering passes with their four pointer arrays)
+    on non-empty domains inside the value range when every upper capacity is ≥ 1; with a zero
+    capacity the code spins (`gcc_zero_capacity_fuel`: known finding K1).
+  `C16_port_full` below is therefore PROVED (`C16_port_full_proved`).  What remains outside the
+  proof: the integer WIDTHS of the arrays (uint16 ranks/pointers, int32 elsewhere) are not modelled;
+  they are exercised by the wide-magnitude cases of the correspondence sweeps.
 -/
 namespace Nucs
 
@@ -64,11 +69,12 @@ theorem C16_port_full_alldifferent_proved :
     ∀ ps B, Contract .alldifferent ps B → B.Nonempty → alldifferent ps B ≠ .error .oob :=
   C16_port_full_alldifferent
 
-/-- the ported Hall-interval algorithms never index out of bounds in contract: first conjunct proved
-    (`C16_port_full_alldifferent`), second (gcc) stated, validated, not proved -/
+/-- the ported Hall-interval algorithms never index out of bounds in contract -/
 def C16_port_full : Prop :=
   (∀ ps B, Contract .alldifferent ps B → B.Nonempty → alldifferent ps B ≠ .error .oob) ∧
   (∀ ps B, Contract .gcc ps B → B.Nonempty → (∀ j, j < (ps.length - 1) / 2 → 1 ≤ getI ps (1 + (ps.length - 1) / 2 + j)) →
     gcc ps B ≠ .error .oob)
+
+theorem C16_port_full_proved : C16_port_full := ⟨C16_port_full_alldifferent, C16_port_full_gcc⟩
 
 end Nucs
